@@ -236,6 +236,17 @@ func refPregel(sp *Spec, path string, in any, o RefOpts) *RefResult {
 			}
 			merged[k] = v
 		}
+		// values that grow geometrically in a cycle (a parallel stage embedding its input several times, looped)
+		// make the model itself take minutes: such cases are given up (Ambiguous: nothing is asserted, not run)
+		big := 0
+		for _, v := range merged {
+			big += sizeOf(v, 1<<18)
+		}
+		if big >= 1<<18 {
+			res.Fail = "toobig"
+			res.Ambiguous = true
+			return res
+		}
 		if v, ok := merged[End]; ok {
 			res.Out = v
 			if len(merged) > 1 {
@@ -413,6 +424,10 @@ func refDAG(sp *Spec, path string, in any) *RefResult {
 		for _, e := range sp.Edges {
 			if e.To == k && !e.NoData && ran[e.From] && !have[e.From] {
 				v := out[e.From]
+				if e.FromKey != "" {
+					m, _ := v.(map[string]any)
+					v = m[e.FromKey]
+				}
 				if e.ToKey != "" {
 					v = map[string]any{e.ToKey: v}
 				}
@@ -686,4 +701,22 @@ func (r *RefResult) IsOptionalTag(tag string) bool {
 		}
 	}
 	return false
+}
+
+// sizeOf estimates the size of a value (string bytes + map entries), stopping at limit.
+func sizeOf(v any, limit int) int {
+	switch x := v.(type) {
+	case string:
+		return len(x) + 1
+	case map[string]any:
+		n := 1
+		for k, e := range x {
+			n += len(k) + sizeOf(e, limit-n)
+			if n >= limit {
+				return n
+			}
+		}
+		return n
+	}
+	return 1
 }
